@@ -6,7 +6,7 @@ from ..framework import Report
 
 
 def run(prop, tier, families_, explanation, assumptions=(), wf_clauses=(), item_defaults=None, floor=None,
-        post=None, level="translation_validation"):
+        post=None, level="translation_validation", hybs=(1000,)):
     """families_: list of (name, [programs]) ."""
     rep = Report(prop, tier, level)
     total = 0
@@ -17,7 +17,7 @@ def run(prop, tier, families_, explanation, assumptions=(), wf_clauses=(), item_
         if tier == "thorough":
             d.setdefault("timeout_ms", 60000)
             d.setdefault("unroll", 17)
-        recs = family_run.run_family(rep, name, progs, d, wf_clauses=wf_clauses)
+        recs = family_run.run_family(rep, name, progs, d, wf_clauses=wf_clauses, hybs=hybs)
         per[name] = len(recs)
         total += len(recs)
         allrecs += recs
